@@ -29,6 +29,10 @@ OPS = {
     "concat": lambda x, y: x @ y,
 }
 UOPS = {
+    "eq_null": lambda x: x == cohdl.Null,
+    "ne_null": lambda x: x != cohdl.Null,
+    "eq_full": lambda x: x == cohdl.Full,
+    "ne_full": lambda x: x != cohdl.Full,
     "invert": lambda x: ~x,
     "neg": lambda x: -x,
     "abs": lambda x: abs(x),
